@@ -455,6 +455,15 @@ def check(ctx):
             ctx.check(L.driver is not None and not L.exits, "C01.b", "ReactCache::%s:loop@%s:no-early-exit" % (nm, driver_tag(m, L)), m.loc(L.header),
                       "loop has no exit other than exhaustion", "a loop of the polled scheduler can be left early (pending removals/despawns would be dropped)")
 
+    # ---- C01.e no live registration is lost as a side effect of a revocation (shared with C06.f) ----
+    import core as _core
+    import c06, c14
+    n = _core.adopt(ctx, c06, lambda o: o["rule"] == "C06.f", "C01.e")
+    ctx.floor("C01.e", n, 1, "shared entry-deletion obligations (C06.f)")
+    # ---- C01.f a trigger that did not happen dispatches nothing (shared with C14.d) ----
+    n = _core.adopt(ctx, c14, lambda o: o["rule"] == "C14.d", "C01.f")
+    ctx.floor("C01.f", n, 2, "shared void-trigger obligations (C14.d)")
+
     # ---- C01.c entity-scoped filter is exact ----
     try:
         it = A.method(prog, "EntityReactors", "iter_rtype")
